@@ -136,6 +136,9 @@ def comment_block(st, lines, multi=False):
 # ---------------------------------------------------------------------------
 # recipe generation
 
+# a blob that binaryornot recognises by signature (its statistical classifier is not relied upon)
+BINARY_BLOB = b"\x89PNG\r\n\x1a\n\x00\x00\x00\rIHDR" + bytes(range(128, 256)) + b"\x00\x00\x01\x00"
+
 GOOD_IDS = ["MIT", "Apache-2.0", "GPL-3.0-or-later", "CC0-1.0", "BSD-3-Clause", "0BSD", "GPL-2.0-only", "LGPL-2.1-or-later",
             "MPL-2.0", "ISC", "EUPL-1.2", "CC-BY-SA-4.0", "Unlicense", "Zlib"]
 GOOD_EXC = ["Classpath-exception-2.0", "GCC-exception-3.1", "LLVM-exception", "Autoconf-exception-3.0"]
@@ -327,7 +330,7 @@ def build(recipe, root, styles=None):
         header_src = [s for s in f["sources"] if s["carrier"] == "header"]
         body = f"code of {f['path']}\nmore code\n"
         if f["kind"] == "binary":
-            p.write_bytes(b"\x00\x01\x02BIN\x00" + os.urandom(8) + b"\x00" * 16)
+            p.write_bytes(BINARY_BLOB + b"\n# SPDX-License-Identifier: LicenseRef-inside-binary\n")
         else:
             text = ""
             if header_src and (header_src[0]["copyrights"] or header_src[0]["exprs"]):
